@@ -54,20 +54,22 @@ Proof. eexists. split; [vm_compute; reflexivity | reflexivity]. Qed.
 Print Assumptions C10_example.
 
 (* TRANSLATED FROM THE SOURCE ON EVERY RUN (Gen/ImplChars.v, from tokenizer.rs): the model's character classes are, for EVERY
-   character, the helpers is_whitespace_char / is_delim_char / is_digit_char / is_param_char of the source text, and the
+   character, the helpers is_whitespace_char / is_delim_char / is_digit_char / is_param_char / is_word_end_char of the source text
+   (and both loops that delimit an operator word stop at is_word_end_char), and the
    first character selects the kind of token exactly as the arms of Tokenizer::next do, in the same order *)
 From EE Require Import ImplChars.
 From Coq Require Import ZifyBool.
 Theorem C10_char_classes_are_source : chars_recognised = true /\
   (forall ch, is_ws ch = impl_is_whitespace_char ch) /\ (forall ch, is_delim ch = impl_is_delim_char ch) /\
   (forall ch, is_digit_char ch = impl_is_digit_char ch) /\ (forall ch, is_param_char ch = impl_is_param_char ch) /\
+  (forall ch, word_end ch = impl_is_word_end_char ch) /\
   (forall ch, is_special ch = impl_arm_special_op_token ch) /\ (forall ch, is_delim ch = impl_arm_delim_token ch) /\
   (forall ch, is_digit09 ch = impl_arm_number_token ch) /\ (forall ch, is_quote ch = impl_arm_string_token ch) /\
   (forall ch, (ch =? c_semi) = impl_arm_semicolon_token ch) /\ (forall ch, (ch =? c_comma) = impl_arm_comma_token ch).
 Proof.
   split; [reflexivity|].
   repeat split; intros ch;
-    unfold is_ws, is_delim, is_digit_char, is_param_char, is_special, is_digit09, is_quote, c_semi, c_comma,
+    unfold word_end, impl_is_word_end_char, is_ws, is_delim, is_digit_char, is_param_char, is_special, is_digit09, is_quote, c_semi, c_comma,
       impl_is_whitespace_char, impl_is_delim_char, impl_is_digit_char, impl_is_param_char, impl_arm_special_op_token,
       impl_arm_delim_token, impl_arm_number_token, impl_arm_string_token, impl_arm_semicolon_token, impl_arm_comma_token;
     lia.
